@@ -329,8 +329,13 @@ def create_linear_transform(linear_transform, features):
         return transforms.CompositeTransform(
             [
                 transforms.RandomPermutation(features=features),
+                # The identity initialisation requires an even number of
+                # Householder transforms that is at most twice the number
+                # of features, otherwise the transform returns NaNs.
                 transforms.SVDLinear(
-                    features, num_householder=10, identity_init=True
+                    features,
+                    num_householder=min(10, 2 * features),
+                    identity_init=True,
                 ),
             ]
         )
